@@ -1,0 +1,196 @@
+//! Verification hooks (`--cfg rosu_pp_verif`): the osu! difficulty objects as
+//! `DifficultyValues::calculate` builds them and the raw output of every strain
+//! evaluator per object. Wrappers only; no state.
+
+use std::pin::Pin;
+
+use crate::{
+    any::difficulty::Difficulty,
+    osu::{
+        convert::convert_objects,
+        object::{OsuObject, OsuObjectKind},
+    },
+    Beatmap,
+};
+
+use super::{
+    object::OsuDifficultyObject,
+    skills::{aim, flashlight, speed},
+    DifficultyValues, OsuDifficultySetup, HD_FADE_IN_DURATION_MULTIPLIER,
+};
+
+/// What the difficulty-object constructor and the evaluators read of one `OsuObject`
+/// (after `convert_objects` and `compute_slider_cursor_pos`).
+#[derive(Copy, Clone, Debug, PartialEq)]
+pub struct SkillProbeRaw {
+    /// 0: circle, 1: slider, 2: spinner
+    pub kind: u8,
+    pub start_time: f64,
+    pub pos: (f32, f32),
+    pub stack_offset: (f32, f32),
+    pub lazy_end_pos: (f32, f32),
+    pub lazy_travel_dist: f32,
+    pub lazy_travel_time: f64,
+    pub repeat_count: usize,
+    pub has_tail: bool,
+    pub tail_pos: (f32, f32),
+}
+
+/// The constructed `OsuDifficultyObject` and the evaluator outputs for it.
+#[derive(Copy, Clone, Debug, PartialEq)]
+pub struct SkillProbeDiff {
+    pub idx: usize,
+    pub start_time: f64,
+    pub delta_time: f64,
+    pub strain_time: f64,
+    pub lazy_jump_dist: f64,
+    pub min_jump_dist: f64,
+    pub min_jump_time: f64,
+    pub travel_dist: f64,
+    pub travel_time: f64,
+    pub angle: Option<f64>,
+    pub aim: f64,
+    pub aim_no_sliders: f64,
+    pub speed: f64,
+    pub speed_autopilot: f64,
+    pub rhythm: f64,
+    pub flashlight: f64,
+    pub flashlight_hidden: f64,
+}
+
+#[derive(Clone, Debug, PartialEq)]
+pub struct SkillProbe {
+    pub clock_rate: f64,
+    /// `ScalingFactor::factor`
+    pub scaling_factor: f32,
+    /// `ScalingFactor::radius`
+    pub radius: f64,
+    pub time_preempt: f64,
+    /// `time_fade_in` as `OsuSkills::new` computes it without / with Hidden
+    pub time_fade_in: f64,
+    pub time_fade_in_hidden: f64,
+    /// `2.0 * od_great`
+    pub hit_window: f64,
+    pub raw: Vec<SkillProbeRaw>,
+    pub diff: Vec<SkillProbeDiff>,
+}
+
+fn raw_of(h: &OsuObject) -> SkillProbeRaw {
+    let mut raw = SkillProbeRaw {
+        kind: 0,
+        start_time: h.start_time,
+        pos: (h.pos.x, h.pos.y),
+        stack_offset: (h.stack_offset.x, h.stack_offset.y),
+        lazy_end_pos: (0.0, 0.0),
+        lazy_travel_dist: 0.0,
+        lazy_travel_time: 0.0,
+        repeat_count: 0,
+        has_tail: false,
+        tail_pos: (0.0, 0.0),
+    };
+
+    match h.kind {
+        OsuObjectKind::Circle => {}
+        OsuObjectKind::Slider(ref slider) => {
+            raw.kind = 1;
+            raw.lazy_end_pos = (slider.lazy_end_pos.x, slider.lazy_end_pos.y);
+            raw.lazy_travel_dist = slider.lazy_travel_dist;
+            raw.lazy_travel_time = slider.lazy_travel_time;
+            raw.repeat_count = slider.repeat_count();
+
+            if let Some(tail) = slider.tail() {
+                raw.has_tail = true;
+                raw.tail_pos = (tail.pos.x, tail.pos.y);
+            }
+        }
+        OsuObjectKind::Spinner(_) => raw.kind = 2,
+    }
+
+    raw
+}
+
+/// Builds the objects and difficulty objects exactly like `DifficultyValues::calculate`
+/// (all objects, no `passed_objects` limit) and evaluates every evaluator on every
+/// difficulty object.
+pub fn skill_probe(difficulty: &Difficulty, map: &Beatmap) -> SkillProbe {
+    let mods = difficulty.get_mods();
+
+    let OsuDifficultySetup {
+        scaling_factor,
+        map_attrs,
+        mut attrs,
+        time_preempt,
+    } = OsuDifficultySetup::new(difficulty, map);
+
+    let mut osu_objects = convert_objects(
+        map,
+        &scaling_factor,
+        mods.reflection(),
+        time_preempt,
+        usize::MAX,
+        &mut attrs,
+    );
+
+    let diff_objects = DifficultyValues::create_difficulty_objects(
+        difficulty,
+        &scaling_factor,
+        osu_objects.iter_mut().map(Pin::new),
+    );
+
+    let hit_window = 2.0 * map_attrs.hit_windows.od_great;
+    let time_fade_in_hidden = time_preempt * HD_FADE_IN_DURATION_MULTIPLIER;
+    let time_fade_in = 400.0 * (time_preempt / OsuObject::PREEMPT_MIN).min(1.0);
+
+    let diff: Vec<SkillProbeDiff> = diff_objects
+        .iter()
+        .map(|curr: &OsuDifficultyObject<'_>| SkillProbeDiff {
+            idx: curr.idx,
+            start_time: curr.start_time,
+            delta_time: curr.delta_time,
+            strain_time: curr.strain_time,
+            lazy_jump_dist: curr.lazy_jump_dist,
+            min_jump_dist: curr.min_jump_dist,
+            min_jump_time: curr.min_jump_time,
+            travel_dist: curr.travel_dist,
+            travel_time: curr.travel_time,
+            angle: curr.angle,
+            aim: aim::verif_evaluate(curr, &diff_objects, true),
+            aim_no_sliders: aim::verif_evaluate(curr, &diff_objects, false),
+            speed: speed::verif_evaluate_speed(curr, &diff_objects, hit_window, false),
+            speed_autopilot: speed::verif_evaluate_speed(curr, &diff_objects, hit_window, true),
+            rhythm: speed::verif_evaluate_rhythm(curr, &diff_objects, hit_window),
+            flashlight: flashlight::verif_evaluate(
+                curr,
+                &diff_objects,
+                false,
+                scaling_factor.radius,
+                time_preempt,
+                time_fade_in,
+            ),
+            flashlight_hidden: flashlight::verif_evaluate(
+                curr,
+                &diff_objects,
+                true,
+                scaling_factor.radius,
+                time_preempt,
+                time_fade_in_hidden,
+            ),
+        })
+        .collect();
+
+    // the difficulty objects borrow the (mutated) objects; release them first
+    drop(diff_objects);
+    let raw = osu_objects.iter().map(raw_of).collect();
+
+    SkillProbe {
+        clock_rate: difficulty.get_clock_rate(),
+        scaling_factor: scaling_factor.factor,
+        radius: scaling_factor.radius,
+        time_preempt,
+        time_fade_in,
+        time_fade_in_hidden,
+        hit_window,
+        raw,
+        diff,
+    }
+}
